@@ -129,13 +129,122 @@ def oracle(c, out):
                 bad = _check_update_predict(c, i, r)
                 if bad:
                     fails.append((site + ":update-predict-differs-from-single-steps", bad))
+            if r[0] in ("S", "F") and in_order and opq and op[2] is not None:
+                bad = _check_update_predict_opaque(c, i)
+                if bad:
+                    fails.append((site + ":update-predict-differs-from-single-steps", bad))
         # (b) refit-on-update == fresh fit on the union, (c) no-refit update keeps parameters
         if k == "upd" and r[0] == "ok" and op[1] and in_order and not opq and prev[0] and c["mode"] == "o":
             bad = _check_update_equiv(c, i, op[2])
             if bad:
                 fails.append((site + (":refit-update-differs-from-fresh-fit" if op[2] else ":no-refit-update-changed-forecast"), bad))
+        # (c') ... for every forecaster: with parameter updating disabled the learned parameters (public attributes
+        #      ending in "_" of the forecaster and of every component) are those of the last fit
+        if k == "upd" and r[0] == "ok" and op[1] and in_order and opq and prev[0] and not op[2]:
+            bad = _check_params_kept(c, i)
+            if bad:
+                fails.append((site + ":no-refit-update-changed-parameters", bad))
         prev = st
     return fails
+
+
+def _learned(f, path="", out=None, seen=None, depth=0):
+    """learned parameters reachable from an estimator: {path: digest}"""
+    import pandas as pd
+    out = {} if out is None else out
+    seen = set() if seen is None else seen
+    if id(f) in seen or depth > 6:
+        return out
+    seen.add(id(f))
+
+    def visit(name, v):
+        if hasattr(v, "get_params") and not isinstance(v, type):
+            _learned(v, path + name + ".", out, seen, depth + 1)
+        elif isinstance(v, (list, tuple)):
+            for j, w in enumerate(v):
+                visit("%s[%d]" % (name, j), w)
+        elif isinstance(v, np.ndarray) and v.dtype.kind in "fiub":
+            out[path + name] = ("a", v.shape, v.astype(float).round(9).tolist())
+        elif isinstance(v, (pd.Series, pd.DataFrame)):
+            out[path + name] = ("p", np.asarray(v, dtype=float).round(9).tolist()) if all(k_ in "fiub" for k_ in np.atleast_1d(v.dtypes).astype(str).tolist() and "f") else ("p", repr(v.shape))
+        elif isinstance(v, (int, float, str, bool, np.number)) or v is None:
+            out[path + name] = ("s", round(float(v), 9) if isinstance(v, (float, np.floating)) else (int(v) if isinstance(v, (np.integer,)) else v))
+
+    for name, v in sorted(vars(f).items()):
+        if (name.endswith("_") and not name.startswith("_")) or name in ("_forecaster",):
+            try:
+                visit(name, v)
+            except Exception:
+                pass
+    try:      # fitted sub-estimators also sit inside constructor parameters (a scikit-learn Pipeline's steps)
+        for name, v in sorted(f.get_params(deep=False).items()):
+            if hasattr(v, "get_params") or isinstance(v, (list, tuple)):
+                visit("(" + name + ")", v)
+    except Exception:
+        pass
+    return out
+
+
+def _check_params_kept(c, i):
+    ops = c["ops"]
+    _, f = _real_values(_twin(c, ops[:i]))
+    if not f.is_fitted:
+        return None
+    before = _learned(f)
+    try:
+        f.update(M.mk_series(ops[i][1], 0, False), update_params=False)
+    except Exception:
+        return None
+    after = _learned(f)
+    for key in sorted(set(before) | set(after)):
+        if before.get(key) != after.get(key):
+            return "learned parameter %s changed during update(update_params=False): %s -> %s" % (
+                key, str(before.get(key))[:80], str(after.get(key))[:80])
+    return None
+
+
+def _check_update_predict_opaque(c, i):
+    """update_predict(y, cv) on any forecaster == for each window of cv: update(window); predict(cv's horizon)
+    (through the PUBLIC methods, on a twin object brought to the same state)"""
+    import pandas as pd, warnings
+    warnings.filterwarnings("ignore")
+    ops, op = c["ops"], c["ops"][i]
+    outs, _ = _real_values(_twin(c, ops[:i + 1]))
+    got = outs[-1]
+    if isinstance(got, str):
+        return None
+    _, f = _real_values(_twin(c, ops[:i]))
+    y, cv = M.mk_series(op[1], 0, False), M.mk_cv(op[2])
+    fh = list(op[2][1])
+    preds, cuts = [], []
+    try:
+        for tr, _ in cv.split(y):
+            f.update(y.iloc[tr], update_params=op[3])
+            preds.append(f.predict(fh))
+            cuts.append(int(f.cutoff))
+    except Exception:
+        return None
+    exp = {}
+    for cc, p in zip(cuts, preds):
+        for l, v in p.items():
+            exp[(int(l), cc)] = float(v)
+    gd = {}
+    if isinstance(got, pd.Series):
+        if len(fh) == 1:
+            gd = {(int(l), cc): float(v) for (l, v), cc in zip(got.items(), cuts)}
+        else:
+            gd = {(int(l), cuts[0] if cuts else None): float(v) for l, v in got.items()}
+    else:
+        for cc in got.columns:
+            for l, v in got[cc].items():
+                if v == v:
+                    gd[(int(l), int(cc))] = float(v)
+    if sorted(gd) != sorted(exp):
+        return "update_predict answered for (time point, cutoff) %r, the single updates and predicts for %r" % (sorted(gd)[:6], sorted(exp)[:6])
+    for key in gd:
+        if abs(gd[key] - exp[key]) > 1e-6 * max(1.0, abs(exp[key])):
+            return "value at (time point, cutoff) %r: update_predict %r, single update + predict %r" % (key, gd[key], exp[key])
+    return None
 
 
 def _fed_by_update_predict(op, st):
@@ -384,16 +493,35 @@ def _history(rng, core, mode, long=False):
     stored = fit_fh is not None
     cutoff = y0[-1][0]
     bi = 0
+    after_up = False
     nmax = 7 if long else 5
     while bi < len(batches) and len(ops) < nmax:
         r = rng.random()
         b = batches[bi]
         if r < 0.2:
-            fh = None if (stored and rng.random() < 0.4) or mode == "r" else M.rand_fh(rng, "oos", None, 3)
+            fh = None if ((stored and rng.random() < 0.4) and not after_up) or mode == "r" else M.rand_fh(rng, "oos", None, 3)
             if fh is not None:
                 stored = True
             ops.append(["pred", fh])
             continue
+        if opq and r >= 0.8:
+            # update_predict with an explicit splitter; its horizon is the splitter's, not the one the forecaster holds
+            # (a horizon-dependent forecaster can only be asked for the horizon it was fitted with)
+            wl = rng.randrange(1, 3)
+            fh2 = list(fit_fh[1]) if (mode == "r" or fit_fh[0] != "r") else sorted(rng.sample(range(1, 5), rng.choice([1, 2, 3])))
+            glue, k = {}, 0
+            while bi + k < len(batches) and len(glue) < wl + max(fh2) + 1:
+                for l, v in batches[bi + k]:
+                    glue[l] = v
+                k += 1
+            stretch = [[l, glue[l]] for l in sorted(glue)]
+            if len(stretch) >= wl + max(fh2) and mode == "r" or (len(stretch) >= wl + max(fh2) and fit_fh[0] == "r"):
+                bi += k
+                ops.append(["up", stretch, [rng.choice(["s", "e"]), fh2, wl, 1, None, True], False])
+                # the windows fed are positions 0..m-1-max(fh): the rest is handed over again by the next batch
+                batches.insert(bi, [list(x) for x in stretch[len(stretch) - max(fh2):]])
+                after_up = True      # non-window forecasters now hold the splitter's horizon: ask explicitly from here on
+                continue
         if r < 0.6 or opq:
             ops.append(["upd", b, rng.random() < 0.5])
             bi += 1
@@ -419,7 +547,7 @@ def _history(rng, core, mode, long=False):
         if ops[-1][1]:
             cutoff = ops[-1][1][-1][0]
     if rng.random() < 0.6:
-        ops.append(["pred", None if (stored and rng.random() < 0.5) or mode == "r" else M.rand_fh(rng, "oos", None, 4)])
+        ops.append(["pred", None if ((stored and rng.random() < 0.5) and not after_up) or mode == "r" else M.rand_fh(rng, "oos", None, 4)])
     return ops
 
 
@@ -439,7 +567,7 @@ def gen_cases(tier, rng):
         core = rng.choice(cores)
         cases.append({"prop": PROP, "core": core, "mode": "o", "ops": C03._history(rng, core, "o"), "shift": 0, "range": False})
     table = M._opaque_table()
-    per = 2 if quick else 12
+    per = 5 if quick else 20
     for name, (mode, _) in sorted(table.items()):
         for j in range(per):
             cases.append({"prop": PROP, "core": "opaque:" + name, "mode": mode, "ops": _history(rng, "opaque:" + name, mode),
